@@ -38,7 +38,9 @@ VALID = ['x = 5\nx', 'len = 3\nlen', 'y = [1]\ny', 'sum([1, 2])', 'zz = 1',  '1 
          'x = 1\n\n\ny = x\ny', 'map([1, 2, 3], v => v + 1)', '"s" + 1.50', 'n = 3\nn *= 2\nn', 'd = {}\nd["k"] = 1\nd', 'sorted([3, 1, 2])\n', 'not True or 1 in [1]', '1 if 2 > 1 else 3',
          'x.upper() if False else hs', '0.1 + 0.2 == 0.3', '1 / 3', 'round(2.675, 2)', 'cnt += 1\ncnt', 'acc | push(len(acc))\nacc', 'g = n => n + cnt\ng(1)', 'g(2)', 'f(1)', 'f(2)',
          'f = n => [n, n + 1, n + 2] | map(v => v * 2)', 'len(x)', 'str(1) + "!"', 'max(1, 2)', '[len("ab"), max(3, 4)]', 'x | len', '2 ** 0.5', '(1 / 3) * 3',
-         '"price: " + 2.50', 'x = 2.5 * 4\nx', 'str(1.0)', '{1: "a", 1.0: "b"} | keys', '"n=" + 1', '[2.5, 2.50, 1, 1.0, 007, 7] | map(v => str(v))', 'str(10.0) + str(10)']
+         '"price: " + 2.50', 'x = 2.5 * 4\nx', '10 ** -2000000', '2.50 ** 1', '1.10 ** 2', 'pretty(2500000)', 'pretty(2500000.0)', 'pretty(2500000.00)', 'pretty(7)', 'pretty(7.00)',
+         'pretty([1, 1.0, 1.00])', 'pretty({"a": 2.50})', '[round(2.50, 1), round(2.5, 1)]', 'str(7.00) + str(7)', '0.000000000000000000000000000001 * 0.000000000000000000000000000001',
+         'match_all("a1b22", r"\\d+")', 'match("abc", "B", "i")', 'sorted([2.0, 2, 1.50])', 'str(1.0)', '{1: "a", 1.0: "b"} | keys', '"n=" + 1', '[2.5, 2.50, 1, 1.0, 007, 7] | map(v => str(v))', 'str(10.0) + str(10)']
 LEXBAD = ['1 + $', 'x = 1\ny = ?', '"unterminated', 'a \\ b', 'f(1,\n 2, ` )', '[1, 2\r3]', 'x = 1 # fine\ny = ~x']
 SYN_MID = ['1 + * 2', 'x = = 1', 'a b', 'f(1 2)', 'x = 1\ny = 2 3\nz = 4', 'if else', '1 +\n2', 'del x', 'x => => 1']
 SYN_END = ['2.5 +', '1.0 +', '1 +', 'f(', 'x =', '[1, 2', '{"a": ', 'a.b', '(x, y) =>', 'x = [1,\n2,', 'f(1,\n g(2,\n']
@@ -130,6 +132,71 @@ def core_verif():
     return os.path.dirname(os.path.dirname(os.path.abspath(__file__)))
 
 
+def fresh_process_outcome(ctx, entry, src, template, budget, k, spend=True):
+    """outcome of the call in a process that has served nothing else; computed once per distinct call (a fresh process has no history, so its outcome
+    is a function of the arguments alone) and shared between the workers through files beside the sandbox; None = not available within the budget"""
+    import hashlib
+    import pickle
+    import subprocess
+    import sys as _sys
+    fk = repr((entry, src, template if entry == 'eval' else 0, budget if entry == 'eval' else None, k if entry == 'list_names_partial' else None))
+    if fk in ctx.fresh_memo:
+        return ctx.fresh_memo[fk]
+    d = os.path.join(ctx.sandbox_dir, '_fresh_outcomes')
+    path = os.path.join(d, hashlib.sha1(fk.encode('utf8', 'replace')).hexdigest())
+    try:
+        with open(path, 'rb') as f:
+            got = pickle.load(f)
+        if got[0] == fk:
+            ctx.fresh_memo[fk] = got[1]
+            return got[1]
+    except Exception:
+        pass
+    if not spend:
+        return None
+    if spend != 'always' and ctx.fresh_spawned >= ctx.fresh_budget:
+        ctx.count('fresh_process_lookups_skipped(budget of this run spent)')
+        return None
+    if spend != 'always':
+        ctx.fresh_spawned += 1
+    req = {'sandbox': ctx.sandbox_dir, 'entry': entry, 'src': src, 'template': template, 'budget': budget, 'k': k}
+    fresh = None
+    try:
+        import struct
+        z = ctx.zygote
+        if z is None or z.poll() is not None:
+            z = ctx.zygote = subprocess.Popen([_sys.executable, '-m', 'lib.fresh_call', '--serve'], stdin=subprocess.PIPE, stdout=subprocess.PIPE,
+                                              cwd=core_verif(), env=dict(os.environ, PYTHONHASHSEED='0'))
+        data = pickle.dumps(req)
+        z.stdin.write(struct.pack('>I', len(data)) + data)
+        z.stdin.flush()
+        head = z.stdout.read(4)
+        n = struct.unpack('>I', head)[0] if len(head) == 4 else 0
+        body = z.stdout.read(n) if n else b''
+        fresh = pickle.loads(body) if body else None
+    except Exception:
+        fresh = None
+        try:
+            ctx.zygote.kill()
+        except Exception:
+            pass
+        ctx.zygote = None
+    if fresh is None:
+        ctx.count('fresh_process_calls_failed(harness)')
+        return None
+    ctx.count('fresh_processes_spawned')
+    ctx.fresh_memo[fk] = fresh
+    try:
+        os.makedirs(d, exist_ok=True)
+        tmp = '%s.%d' % (path, os.getpid())
+        with open(tmp, 'wb') as f:
+            pickle.dump((fk, fresh), f)
+        os.replace(tmp, path)
+    except OSError:
+        pass
+    return fresh
+
+
 def lexer_scalars(lex):
     out = {}
     for k, v in lex.__dict__.items():
@@ -174,7 +241,11 @@ def setup(ctx):
     ctx.baseline = dict(seen)
     ctx.memo = {}
     ctx.fresh_built = 0
-    ctx.fresh_process_rate = 0.02 if ctx.quick else 0.01
+    ctx.fresh_memo = {}
+    ctx.zygote = None
+    ctx.sweepP = None
+    ctx.fresh_spawned = 0
+    ctx.fresh_budget = ctx.scale(0, 1500)
     ctx.pristine = SqParser()
 
 
@@ -182,9 +253,9 @@ def gen_history(r):
     n = r.randint(5, 40)
     calls = []
     # a history works on a small subset of the corpus, so that the same text recurs with other names / after other predecessors
-    subset = {k: r.sample(v, min(len(v), r.randint(1, 3))) for k, v in KINDS.items()}
+    subset = {k: r.sample(v, min(len(v), r.randint(1, 3) if k != 'ok' else r.randint(2, 6))) for k, v in KINDS.items()}
     for _ in range(n):
-        kind = r.choice(list(KINDS))
+        kind = r.choice(list(KINDS) + ['ok', 'ok'])
         src = r.choice(subset[kind])
         entry = r.choice(['parse', 'eval', 'eval', 'list_names', 'list_names_partial'])
         if kind == 'names-text' and entry in ('parse', 'eval') and r.random() < 0.7:
@@ -203,16 +274,57 @@ def cases(ctx):
         yield ('hist', [('runtime', 'eval', 'round(1.5, 200)', 'fresh0', None, 0), ('ok', 'eval', '1 / 3', 'fresh0', None, 0)], False)
         yield ('hist', [('names-text', 'list_names_partial', 'msg.', 'fresh0', None, 3), ('names-text', 'list_names', 'not ready and ok', 'fresh0', None, 0)], False)
         yield ('hist', [('names-text', 'list_names_partial', 'a b c d', 'fresh0', None, 1), ('names-text', 'list_names', 'a b c d', 'fresh0', None, 0)], True)
-    for _ in range(ctx.scale(20, 400)):
+    for i in range(ctx.scale(14, 400)):
         r = random.Random(rnd.getrandbits(48))
         yield ('hist', gen_history(r), r.random() < 0.4)
+        if i % 100 == 5 and not os.environ.get("NOSWEEP"):
+            yield ('sweep', rnd.getrandbits(32))
 
 
 def key_of(entry, src, names, budget, k):
     return repr((entry, src, type(names).__name__, norm_value(names) if entry == 'eval' else None, budget if entry == 'eval' else None, k if entry == 'list_names_partial' else None))
 
 
+NATURAL = {'ok': 'eval', 'runtime': 'eval', 'ops-limit': 'eval', 'host-raise': 'eval', 'names-text': 'list_names'}
+
+
+def run_sweep(case, ctx):
+    """every text of the corpus, twice, in a rotated/shuffled order on ONE long-lived parser of this worker process, each outcome compared with the
+    outcome of the same call in a fresh process (computed once per text for the whole run): state kept at module or interpreter level by ANY
+    earlier call of this process - the histories before this case included - shows as a difference"""
+    r = random.Random(case[1])
+    items = [(kind, src) for kind, v in KINDS.items() for src in v]
+    cut = (ctx.shard * 37 + case[1]) % len(items)
+    first = items[cut:] + items[:cut]
+    second = list(items)
+    r.shuffle(second)
+    if ctx.sweepP is None:
+        ctx.sweepP = (ctx.SqParser(), ctx.SqParser(parse_cache={}))
+    for n, (kind, src) in enumerate(first + second):
+        entry = NATURAL.get(kind, 'parse')
+        P = ctx.sweepP[n % 2]
+        names = fresh_names(0) if entry == 'eval' else None
+        ctx.cur = {'first': None, 'foreign': 0}
+        out = do_call(P, entry, src, names, None, 0)
+        ctx.evaluations += 1
+        if out == ('recursion',):
+            continue
+        fresh = fresh_process_outcome(ctx, entry, src, 0, None, 0, spend='always')
+        if fresh is None:
+            continue
+        ctx.count('outcomes_compared_with_a_fresh_process')
+        ctx.count('sweep_calls_compared_with_a_fresh_process')
+        ctx.nontriv('sweep|%s|%s|%d' % (src, entry, n >= len(first)))
+        if fresh != out and fresh != ('recursion',):
+            ctx.violation('a call gives a different outcome in a fresh process (state kept outside the parser object)', ('sweep', case[1]),
+                          detail={'call': [entry, src, 'fresh0', None, 0], 'position_in_sweep': n, 'with_history': repr(out)[:300], 'fresh_process': repr(fresh)[:300],
+                                  'earlier_in_this_sweep': [x[1][:30] for x in (first + second)[max(0, n - 5):n]]})
+            return
+
+
 def run_case(case, ctx):
+    if case[0] == 'sweep':
+        return run_sweep(case, ctx)
     _, calls, cached = case
     P = ctx.SqParser(parse_cache={}) if cached else ctx.SqParser()
     M7 = monitors.TokenMonitor(P)
@@ -270,7 +382,7 @@ def run_case(case, ctx):
         # ---- the history-free member of this call's group
         if stale or key not in ctx.memo:
             # (a closure in names is opaque in the key, so such calls are never served from the memo)
-            if ctx.rnd.random() < 0.15:
+            if ctx.rnd.random() < 0.05:
                 F = ctx.SqParser()
                 ctx.fresh_built += 1
             else:
@@ -294,20 +406,10 @@ def run_case(case, ctx):
         ctx.nontriv('%s|%s' % (hash(repr(trail[:-1])), key))
         # a sample of the calls is also replayed in a FRESH PROCESS: state kept at module level (memos, caches, contexts) is shared by every
         # parser of this process, the freshly constructed one included
-        if (names is None or names_mode.startswith('fresh')) and ctx.rnd.random() < ctx.fresh_process_rate and out != ('recursion',):
-            import pickle
-            import subprocess
-            import sys as _sys
-            req = {'sandbox': ctx.sandbox_dir, 'entry': entry, 'src': src, 'template': int(names_mode[-1]) if names_mode.startswith('fresh') else 0, 'budget': budget, 'k': k}
-            try:
-                pr = subprocess.run([_sys.executable, '-m', 'lib.fresh_call'], input=pickle.dumps(req), capture_output=True, timeout=60,
-                                    cwd=core_verif(), env=dict(os.environ, PYTHONHASHSEED='0'))
-                fresh = pickle.loads(pr.stdout) if pr.returncode == 0 and pr.stdout else None
-            except Exception:
-                fresh = None
-            if fresh is None:
-                ctx.count('fresh_process_calls_failed(harness)')
-            else:
+        if (names is None or names_mode.startswith('fresh')) and out != ('recursion',):
+            fresh = fresh_process_outcome(ctx, entry, src, int(names_mode[-1]) if (names is not None and names_mode.startswith('fresh')) else 0, budget, k,
+                                          spend=kind in ('ok', 'runtime', 'names-text') or ctx.rnd.random() < 0.3)
+            if fresh is not None:
                 ctx.count('outcomes_compared_with_a_fresh_process')
                 if fresh != out and fresh != ('recursion',):
                     ctx.violation('a call gives a different outcome in a fresh process (state kept outside the parser object)', case,
@@ -325,6 +427,12 @@ def run_case(case, ctx):
 
 
 def finish(ctx):
+    if getattr(ctx, 'zygote', None) is not None:
+        try:
+            ctx.zygote.stdin.close()
+            ctx.zygote.wait(timeout=10)
+        except Exception:
+            ctx.zygote.kill()
     ctx.counters['fresh_parsers_constructed'] = ctx.fresh_built
 
 
